@@ -151,14 +151,14 @@ func (r *run) direct() {
 		c.Eval(4)
 		r.bump("corpus:direct-assertions")
 		if o.Panicked {
-			c.Violate("Type.Equals", "panic: "+core.PanicClass(o.PanicMsg), "corpus:"+name, fmt.Sprintf("%#v vs %#v", a, b), o.PanicMsg+"\n"+o.Stack)
+			r.viol("Type.Equals", "panic: "+core.PanicClass(o.PanicMsg), "corpus:"+name, fmt.Sprintf("%#v vs %#v", a, b), o.PanicMsg+"\n"+o.Stack)
 			return
 		}
 		if e1 != want || e2 != want {
-			c.Violate("Type.Equals", "corpus assertion failed", "corpus:"+name, fmt.Sprintf("%#v vs %#v", a, b), fmt.Sprintf("Equals %v/%v, expected %v", e1, e2, want))
+			r.viol("Type.Equals", "corpus assertion failed", "corpus:"+name, fmt.Sprintf("%#v vs %#v", a, b), fmt.Sprintf("Equals %v/%v, expected %v", e1, e2, want))
 		}
 		if (n1 == 0) != want || (n2 == 0) != want {
-			c.Violate("Type.TestConformance", "corpus assertion failed", "corpus:"+name, fmt.Sprintf("%#v vs %#v", a, b), fmt.Sprintf("error counts %d/%d, expected conformance %v", n1, n2, want))
+			r.viol("Type.TestConformance", "corpus assertion failed", "corpus:"+name, fmt.Sprintf("%#v vs %#v", a, b), fmt.Sprintf("error counts %d/%d, expected conformance %v", n1, n2, want))
 		}
 	}
 	// capsule identity: a second capsule type with the same name (and even the same native type) is a different type
@@ -201,7 +201,7 @@ func (r *run) direct() {
 		c.Eval(8)
 		r.bump("corpus:direct-assertions")
 		if o.Panicked || hd || !eqStrip || !eqTwice {
-			c.Violate("Type.WithoutOptionalAttributesDeep", "corpus assertion failed", "corpus:extra capsule", fmt.Sprintf("%#v", ty),
+			r.viol("Type.WithoutOptionalAttributesDeep", "corpus assertion failed", "corpus:extra capsule", fmt.Sprintf("%#v", ty),
 				fmt.Sprintf("HasDynamicTypes=%v strip-stable=%v idempotent=%v %s", hd, eqStrip, eqTwice, o.PanicMsg))
 		}
 	}
